@@ -11,6 +11,7 @@ package main
 import (
 	"encoding/json"
 	"fmt"
+	"sort"
 	"strings"
 	"time"
 
@@ -92,16 +93,52 @@ func runC15Literals(c *Ctx) {
 		c.Count("literal:evaluate")
 	}
 	// each escape of the specification
-	for esc, want := range map[string]string{`\'`: "'", `\"`: "\"", "\\`": "`", `\\`: "\\", `\/`: "/", `\f`: "\f", `\n`: "\n", `\r`: "\r", `\t`: "\t", `A`: "A", `é`: "é", `日`: "日"} {
-		src := "'x" + esc + "y'"
-		e, err := fhirpath.Compile(src)
-		if err != nil {
-			c.Law(false, "C15/escape", "every FHIRPath escape is decoded", src, err.Error())
-			continue
+	bs := string(rune(92)) // one backslash
+	escapes := map[string]string{bs + "'": "'", bs + "\"": "\"", bs + "`": "`", bs + bs: bs, bs + "/": "/", bs + "f": "\f", bs + "n": "\n", bs + "r": "\r", bs + "t": "\t",
+		bs + "u0041": "A", bs + "u00e9": string(rune(0xe9)), bs + "u65E5": string(rune(0x65e5)), bs + "u65e5": string(rune(0x65e5)), bs + "uFFFF": string(rune(0xffff)), bs + "u0000": string(rune(0)), bs + "u007f": string(rune(0x7f))}
+	var escKeys []string
+	for k := range escapes {
+		escKeys = append(escKeys, k)
+	}
+	sort.Strings(escKeys)
+	for _, esc := range escKeys {
+		want := escapes[esc]
+		// in the middle, at the start, at the very end, alone, doubled, before a quote-like character
+		for _, fr := range [][2]string{{"x", "y"}, {"", "y"}, {"x", ""}, {"", ""}, {esc, ""}, {"", esc}, {"x", "0"}, {"x", "u"}, {"é", "日"}} {
+			src := "'" + fr[0] + esc + fr[1] + "'"
+			exp := strings.ReplaceAll(fr[0], esc, want) + want + strings.ReplaceAll(fr[1], esc, want)
+			e, err := fhirpath.Compile(src)
+			c.Observe("escape "+src, true)
+			if err != nil {
+				c.Law(false, "C15/escape", "every FHIRPath escape is decoded", src, err.Error())
+				continue
+			}
+			o := safeEval(func() (system.Collection, error) { return e.Evaluate(nil) })
+			good := o.Err == nil && len(o.Coll) == 1 && o.Coll[0] == system.String(exp)
+			c.Law(good, "C15/escape", "every FHIRPath escape is decoded, wherever it stands in the literal", src, canonOutcome(o, nil))
 		}
-		o := safeEval(func() (system.Collection, error) { return e.Evaluate(nil) })
-		good := o.Err == nil && len(o.Coll) == 1 && o.Coll[0] == system.String("x"+want+"y")
-		c.Law(good, "C15/escape", "every FHIRPath escape is decoded", src, canonOutcome(o, nil))
+	}
+	// reference decoder over random mixtures of valid escapes and plain characters
+	validPieces := append(append([]string{}, escKeys...), "a", "b", " ", "é", "日", "😀", "u", "0041", "\n", "%", "\"", "`", "/")
+	k := 2000
+	if c.thorough {
+		k = 40000
+	}
+	for i := 0; i < k; i++ {
+		var src, exp strings.Builder
+		for j := c.rng.Intn(7); j > 0; j-- {
+			p := Pick(c.rng, validPieces)
+			src.WriteString(p)
+			if w, ok := escapes[p]; ok {
+				exp.WriteString(w)
+			} else {
+				exp.WriteString(p)
+			}
+		}
+		lit := "'" + src.String() + "'"
+		got, err := system.ParseString(lit)
+		c.Observe("decode "+lit, strings.Contains(lit, bs))
+		c.Law(err == nil && string(got) == exp.String(), "C15/escape", "a literal made of valid escapes and plain characters decodes piece by piece", lit, fmt.Sprintf("%q vs %q", string(got), exp.String()))
 	}
 }
 
